@@ -145,6 +145,18 @@ void vr_case(uint64_t seed, uint64_t idx, int profile)
     vr_fp_mix(obj_sz); vr_fp_mix(pc); vr_fp_mix(ct); vr_fp_mix(target);
     ln = 0;
     history(&r, target, profile == 1 ? 3000 : 1500);
+    /* second and third lives: the same pool struct terminated (with everything on its free list, or with objects still out) and
+     * initialised again with another geometry must start empty */
+    for (int life = 0; life < 2 && vr_nviol == 0 && vr_chance(&r, 1, 2); life++) {
+        if (vr_chance(&r, 1, 2)) { size_t some = 1 + vr_below(&r, 300); while (ln < some) if (!do_alloc()) return; if (vr_chance(&r, 1, 2)) while (ln > some / 2) if (!do_free(vr_below(&r, ln))) return; VR_CNT("pools_terminated_with_objects_out"); }
+        cmi_mempool_terminate(mp); ln = 0;
+        obj_sz = sizes[vr_below(&r, 8)]; pc = perchunk[vr_below(&r, 4)];
+        cmi_mempool_initialize(mp, obj_sz, pc);
+        if (mp->chunk_list_cnt != 0) vr_violation("C20/reinitialised-not-empty", "a re-initialised pool starts with %" PRIu64 " chunk(s)", mp->chunk_list_cnt);
+        size_t t2 = (size_t)(mp->incr_num * (1 + vr_below(&r, 3)) + 1); if (t2 > 20000) t2 = 20000;
+        VR_CNT("pools_reinitialised"); vr_fp_mix(0x11fe + obj_sz);
+        history(&r, t2, 400);
+    }
     if (vr_nviol == 0) { cmi_mempool_destroy(mp); VR_CNT("pools_destroyed"); }
     if (ct >= 2) vr_mark_nontrivial();
     if (ct >= 64) VR_CNT("cases_crossing_64_chunks");
